@@ -81,6 +81,25 @@ func c09XMLNoOddDirective(b []byte) bool {
 	return true
 }
 
+// encoding/xml reads the pseudo-attributes of `<?xml …?>` with a lenient scan (`version=` followed by white space is simply
+// "no version", the same text respelled `version="x"` is then an unsupported version): an input counts as well-formed only
+// when every processing instruction with target `xml` is a proper XMLDecl / TextDecl (XML 1.0 [23], [77])
+var c09ReXMLDecl = regexp.MustCompile(`^<\?xml(\s+version\s*=\s*("1\.[0-9]+"|'1\.[0-9]+'))?(\s+encoding\s*=\s*("[A-Za-z][A-Za-z0-9._-]*"|'[A-Za-z][A-Za-z0-9._-]*'))?(\s+standalone\s*=\s*("(yes|no)"|'(yes|no)'))?\s*\?>`)
+
+func c09XMLDeclOK(b []byte) bool {
+	for i := 0; i+5 < len(b); i++ {
+		if b[i] == '<' && b[i+1] == '?' && (b[i+2] == 'x' || b[i+2] == 'X') && (b[i+3] == 'm' || b[i+3] == 'M') && (b[i+4] == 'l' || b[i+4] == 'L') {
+			c := b[i+5]
+			if c == ' ' || c == '\t' || c == '\n' || c == '\r' || c == '?' {
+				if !c09ReXMLDecl.Match(b[i:]) {
+					return false
+				}
+			}
+		}
+	}
+	return true
+}
+
 // c09CSSValid: strings and comments terminated, (), [], {} balanced outside strings/comments.
 func c09CSSValid(b []byte) bool {
 	var stack []byte
@@ -262,7 +281,7 @@ func c09Docs(repo string, maxBytes int) []c09Doc {
 
 func init() {
 	register("C09", func(c *Ctx) error {
-		maxB := c.N(120000, 4000000)
+		maxB := 4000000 // every corpus / benchmark document at its real size in both tiers (mutations use documents <= 60 KB)
 		docs := c09Docs(c.Repo, maxB)
 		node, err := c09StartNode()
 		if err != nil {
@@ -316,7 +335,7 @@ func init() {
 					report("output is not valid JSON (encoding/json) although the input is", "")
 				}
 			case "text/xml", "image/svg+xml":
-				if c09XMLValid(d.data) && c09XMLNoOddDirective(d.data) && !c09XMLValid(o) {
+				if c09XMLValid(d.data) && c09XMLNoOddDirective(d.data) && c09XMLDeclOK(d.data) && !c09XMLValid(o) {
 					report("output is not well-formed XML (encoding/xml) although the input is", "")
 				}
 			case "text/css":
@@ -350,6 +369,15 @@ func init() {
 		mDef.AddFuncRegexp(regexp.MustCompile("[/+]xml$"), minxml.Minify)
 		for _, d := range docs {
 			run(d, mDef, "default", false)
+		}
+		// every document at its real size once more under a random non-default option set
+		for _, d := range docs {
+			r := c.Rng.Fork()
+			m, cfg := c09Options(r)
+			for cfg == "default" {
+				m, cfg = c09Options(r)
+			}
+			run(d, m, cfg, false)
 		}
 		n := c.N(1200, 40000)
 		var small []c09Doc
